@@ -298,4 +298,184 @@ theorem resampledAtas_tableKeys {s : List Cell} {fields : List String} {I : IdxT
             · cases hb; rfl) ht
       rw [assoc?_isSome_iff, hk, ataTable_keys hA lt hltA]
 
+/-! ### the whole clause `chainOkSlice` on the replicate of one slice -/
+
+/-- rows are laid out by development lag: for the cell at position `j`, the cells of its period with a smaller lag
+are none when it is the period's earliest cell, and otherwise end with the cell at position `j - 1`
+(true of a sorted slice whose evaluation dates order the lags) -/
+def RowsByLag (s : List Cell) : Prop :=
+  ∀ j (hj : j < s.length),
+    (initialLag s (s[j].ps, s[j].pe) = some s[j].devLag →
+      (s.filter fun d => (d.ps, d.pe) == (s[j].ps, s[j].pe) && d.devLag < s[j].devLag) = []) ∧
+    (initialLag s (s[j].ps, s[j].pe) ≠ some s[j].devLag → ∃ j', j' + 1 = j ∧
+      (s.filter fun d => (d.ps, d.pe) == (s[j].ps, s[j].pe) && d.devLag < s[j].devLag).getLast? = s[j']?)
+
+theorem chainFrom_at {t : List Cell} {F : Factors} {fields : List String} :
+    ∀ {cs os : List Cell} {vals : Dict Val}, ChainFrom t F fields vals cs os →
+      cs.length = os.length ∧
+      ∀ j (h1 : j + 1 < cs.length) (h2 : j + 1 < os.length) (h3 : j < os.length),
+        initialLag t (cs[j + 1].ps, cs[j + 1].pe) ≠ some cs[j + 1].devLag →
+        chainCellOk F fields ((periodsOf t).idxOf (cs[j + 1].ps, cs[j + 1].pe)) cs[j + 1] os[j].values os[j + 1] = true := by
+  intro cs
+  induction cs with
+  | nil =>
+    intro os vals h
+    cases os with
+    | nil => exact ⟨rfl, fun j h1 => by simp at h1⟩
+    | cons _ _ => simp [ChainFrom] at h
+  | cons c cs ih =>
+    intro os vals h
+    cases os with
+    | nil => simp [ChainFrom] at h
+    | cons o os =>
+      simp only [ChainFrom] at h
+      obtain ⟨_, hrest⟩ := h
+      obtain ⟨hlen, hih⟩ := ih hrest
+      refine ⟨by simp [hlen], ?_⟩
+      intro j h1 h2 h3 hni
+      cases j with
+      | zero =>
+        cases cs with
+        | nil => simp at h1
+        | cons c1 cs1 =>
+          cases os with
+          | nil => simp at hlen
+          | cons o1 os1 =>
+            simp only [ChainFrom] at hrest
+            have := hrest.1
+            simp only [List.getElem_cons_succ, List.getElem_cons_zero] at hni ⊢
+            rw [if_neg hni] at this
+            exact this
+      | succ j =>
+        simp only [List.getElem_cons_succ] at hni ⊢
+        exact hih j (by simpa using h1) (by simpa using h2) (by simpa using h3) hni
+
+theorem spec_chain_slice' {s out rep : List Cell} {fields : List String} {I : IdxTable} {F : Factors} {i : Nat}
+    (hF : resampledAtas s fields I = .ok F) (h : developByAtas s F = .ok out)
+    (hp : rep.Perm (out.map (tagCell i)))
+    (hk : kindsConsistent s = true) (hs : s.Pairwise (fun a b => Cell.le a b))
+    (hnd : (s.map (·.coord)).Nodup) (hmd : ∀ c ∈ s, ∀ c' ∈ s, c.md = c'.md)
+    (hwf : ∀ c ∈ s, c.values.keys.Nodup) (hrows : RowsByLag s) :
+    chainOkSlice s rep i fields I = true := by
+  have hloop := developByAtas_loop h hk hs
+  have hchain := developLoop_chain (resampledAtas_tableKeys hF) s [] out hloop (by simp [Dict.keys]) hwf
+  obtain ⟨hlen, hat⟩ := chainFrom_at hchain
+  have hrel := developLoop_rel hloop
+  -- positional pairing
+  let R : Cell → Cell → Prop := fun c o => o.coord = c.coord ∧ ∃ j : Nat, s[j]? = some c ∧ out[j]? = some o
+  have hR : List.Forall₂ R s out := by
+    rw [List.forall₂_iff_get]
+    refine ⟨hlen, fun j h1 h2 => ⟨?_, j, by simp [h1], by simp [h2]⟩⟩
+    have := (List.forall₂_iff_get.mp hrel).2 j h1 h2
+    exact this.1
+  have hinj : TagInjective s i := fun a ha b hb _ => hmd a ha b hb
+  have hsnd : s.Nodup := List.Nodup.of_map _ hnd
+  have look : ∀ j (hj : j < s.length), repCell rep s[j] i = some (tagCell i (out[j]'(hlen ▸ hj))) := by
+    intro j hj
+    obtain ⟨o, ⟨_, j', hj1, hj2⟩, hrep⟩ :=
+      repCell_of_pairing (R := R) (fun _ _ hh => hh.1) hp hR (List.Perm.refl _) hnd hinj s[j] (List.getElem_mem hj)
+    have hj' : j' < s.length := by
+      by_contra hc; rw [List.getElem?_eq_none (by omega)] at hj1; cases hj1
+    rw [List.getElem?_eq_getElem hj'] at hj1
+    have : j' = j := (List.Nodup.getElem_inj_iff hsnd).mp (Option.some.inj hj1)
+    subst this
+    rw [List.getElem?_eq_getElem (hlen ▸ hj)] at hj2
+    rw [hrep, ← Option.some.inj hj2]
+  simp only [chainOkSlice, hF, List.all_eq_true]
+  intro c hc
+  obtain ⟨j, hj, rfl⟩ := List.getElem_of_mem hc
+  obtain ⟨hinit, hnon⟩ := hrows j hj
+  by_cases hi0 : initialLag s (s[j].ps, s[j].pe) = some s[j].devLag
+  · simp [hinit hi0]
+  · obtain ⟨j', hjj, hlast⟩ := hnon hi0
+    subst hjj
+    have hj' : j' < s.length := by omega
+    rw [List.getElem?_eq_getElem hj'] at hlast
+    simp only [hlast, look (j' + 1) hj, look j' hj']
+    exact hat j' hj (hlen ▸ hj) (hlen ▸ hj') hi0
+
+/-- … and on replicate `i` of a slice as `_bootstrap_slice` produces it from numpy's index draws -/
+theorem spec_chain_replicate' {s rep : List Cell} {fields : List String} {d : Draws} {i : Nat}
+    (h : replicateD s fields d i = .ok rep) (hu : useAtas s = true)
+    (hk : kindsConsistent s = true) (hs : s.Pairwise (fun a b => Cell.le a b))
+    (hnd : (s.map (·.coord)).Nodup) (hmd : ∀ c ∈ s, ∀ c' ∈ s, c.md = c'.md)
+    (hwf : ∀ c ∈ s, c.values.keys.Nodup) (hrows : RowsByLag s) :
+    chainOkSlice s rep i fields d.I = true := by
+  simp only [replicateD, hu, if_true] at h
+  split at h
+  · cases h
+  · rename_i F hF
+    simp only [replicate, hu, if_true] at h
+    split at h
+    · cases h
+    · rename_i out hout
+      exact spec_chain_slice' hF hout (tagBootstrap_perm h) hk hs hnd hmd hwf hrows
+
+/-! ### development lags are ordered by the evaluation date -/
+
+theorem Date.cmp_lt_cases {a b : Date} (h : Date.cmp a b = .lt) :
+    a.y < b.y ∨ (a.y = b.y ∧ a.m < b.m) ∨ (a.y = b.y ∧ a.m = b.m ∧ a.d < b.d) := by
+  simp only [Date.cmp, compareLex, cmpOn] at h
+  rcases Int.lt_trichotomy a.y b.y with hy | hy | hy
+  · exact Or.inl hy
+  · right
+    rcases Nat.lt_trichotomy a.m b.m with hm | hm | hm
+    · exact Or.inl ⟨hy, hm⟩
+    · right
+      refine ⟨hy, hm, ?_⟩
+      simp only [hy, hm, compare_eq_iff_eq.mpr, Ordering.then] at h
+      simpa [compare_lt_iff_lt] using h
+    · exfalso
+      have : compare a.m b.m = .gt := compare_gt_iff_gt.mpr hm
+      simp [hy, this, Ordering.then] at h
+  · exfalso
+    have : compare a.y b.y = .gt := compare_gt_iff_gt.mpr hy
+    simp [this, Ordering.then] at h
+
+theorem monthFraction_range {dt : Date} (hv : dt.valid = true) : 0 < monthFraction dt ∧ monthFraction dt ≤ 1 := by
+  simp only [Date.valid, Bool.and_eq_true, decide_eq_true_eq] at hv
+  obtain ⟨⟨⟨_, _⟩, h1⟩, h2⟩ := hv
+  have hd : (0 : Rat) < dim dt.y dt.m := by exact_mod_cast (by omega : 0 < dim dt.y dt.m)
+  unfold monthFraction
+  constructor
+  · exact div_pos (by exact_mod_cast (by omega : 0 < dt.d)) hd
+  · rw [div_le_one hd]; exact_mod_cast h2
+
+/-- **the development lag (months) is strictly increasing in the evaluation date** (valid calendar dates) -/
+theorem devLag_strictMono {pe e1 e2 : Date} (v1 : e1.valid = true) (v2 : e2.valid = true)
+    (h : Date.cmp e1 e2 = .lt) : calculateDevLag pe e1 .month < calculateDevLag pe e2 .month := by
+  obtain ⟨a1, b1⟩ := monthFraction_range v1
+  obtain ⟨a2, b2⟩ := monthFraction_range v2
+  simp only [Date.valid, Bool.and_eq_true, decide_eq_true_eq] at v1 v2
+  simp only [calculateDevLag, devLagMonths]
+  rcases Date.cmp_lt_cases h with hy | ⟨hy, hm⟩ | ⟨hy, hm, hd⟩
+  · have : (12 * (e1.y - pe.y) + ((e1.m : Int) - (pe.m : Int)) : Int) + 1 ≤
+        12 * (e2.y - pe.y) + ((e2.m : Int) - (pe.m : Int)) := by omega
+    have hc : ((12 * (e1.y - pe.y) + ((e1.m : Int) - (pe.m : Int)) : Int) : Rat) + 1 ≤
+        ((12 * (e2.y - pe.y) + ((e2.m : Int) - (pe.m : Int)) : Int) : Rat) := by exact_mod_cast this
+    linarith
+  · have : (12 * (e1.y - pe.y) + ((e1.m : Int) - (pe.m : Int)) : Int) + 1 ≤
+        12 * (e2.y - pe.y) + ((e2.m : Int) - (pe.m : Int)) := by omega
+    have hc : ((12 * (e1.y - pe.y) + ((e1.m : Int) - (pe.m : Int)) : Int) : Rat) + 1 ≤
+        ((12 * (e2.y - pe.y) + ((e2.m : Int) - (pe.m : Int)) : Int) : Rat) := by exact_mod_cast this
+    linarith
+  · have hf : monthFraction e1 < monthFraction e2 := by
+      unfold monthFraction
+      rw [hy, hm]
+      have hdim : (0 : Rat) < dim e2.y e2.m := by
+        exact_mod_cast (by omega : 0 < dim e2.y e2.m)
+      exact div_lt_div_of_pos_right (by exact_mod_cast hd) hdim
+    rw [hy, hm]
+    linarith
+
+/-! ### a 2 × 2 age-to-age square for the non-vacuity example of `RowsByLag` -/
+
+def mkSq (y : Nat) (ev : Date) (v : Rat) : Cell :=
+  { kind := .cumulative, ps := ⟨y, 1, 1⟩, pe := ⟨y, 12, 31⟩, ev := ev, prev := none,
+    values := [("paid_loss", .flt v)], md := default }
+
+def exSquare : List Cell :=
+  [mkSq 2020 ⟨2020, 12, 31⟩ 100, mkSq 2020 ⟨2021, 12, 31⟩ 150,
+   mkSq 2021 ⟨2021, 12, 31⟩ 80, mkSq 2021 ⟨2022, 12, 31⟩ 160]
+
 end Bermuda.Resample
